@@ -17,6 +17,7 @@ func init() {
 	vHarnesses["H_C12_two"] = H_C12_two
 	vHarnesses["H_C12_queries"] = H_C12_queries
 	vHarnesses["H_C12_lazy"] = H_C12_lazy
+	vHarnesses["H_C12_db"] = H_C12_db
 }
 
 type c12Gen struct {
@@ -310,4 +311,94 @@ func H_C12_lazy(inst int) {
 	verify(runtime.NumGoroutine() == before, "the query's goroutine did not terminate after Close")
 	verify(!sols.Next(), "Next after Close returned true")
 	reach("c12/lazy", true)
+}
+
+// ---- two open Solutions on one interpreter, one enumerating a dynamic predicate, the other updating it ----
+
+var c12Updates = []string{"retract(p(1)).", "retract(p(2)).", "retract(p(3)).", "assertz(p(4)).", "asserta(p(0)).", "retract(p(_)).", "retract(p(1)), assertz(p(1))."}
+
+// H_C12_db: A = p(X) over dynamic p(1..3); B = one update (by case split); 5 Next calls addressed to A or B by case
+// split. A's answers are the clauses that existed at its first Next (when its goal is called), in that order,
+// whatever B does in between: each Solutions sees the answers it would see alone against that database.
+func H_C12_db(inst int) {
+	i := newFull()
+	verify(i.Exec(":- dynamic(p/1). p(1). p(2). p(3).") == nil, "harness: setup failed")
+	upd := c12Updates[inst]
+	note("update", upd)
+	a, err := i.Query("p(X).")
+	verify(err == nil, "Query returned an error")
+	b, err := i.Query(upd)
+	verify(err == nil, "Query returned an error")
+	db := []int{1, 2, 3} // the model's database
+	var snap []int      // A's snapshot, taken at its first Next
+	started := false
+	bDone := 0
+	seen := 0
+	for k := 0; k < 5; k++ {
+		if choice("who", 2) == 0 {
+			ok := a.Next()
+			if !started {
+				started = true
+				snap = append([]int{}, db...)
+			}
+			if seen < len(snap) {
+				verify(ok, "A: Next returned false although clauses of its snapshot remain")
+				var x int
+				s := struct{ X *int }{&x}
+				_ = s
+				m := map[string]interface{}{}
+				verify(a.Scan(m) == nil, "A: Scan failed")
+				verify(m["X"] == interface{}(snap[seen]), "A: an answer is not the next clause of the database as it was when A's goal was called")
+				seen++
+			} else {
+				verify(!ok, "A: more answers than clauses in its snapshot")
+				verify(a.Err() == nil, "A: ended with an error")
+			}
+			continue
+		}
+		ok := b.Next()
+		bDone++
+		// the model of the update (first solution at the first Next; retract(p(_)) removes one more clause per Next)
+		switch upd {
+		case "retract(p(1)).", "retract(p(2)).", "retract(p(3)).":
+			v := int(upd[10] - '0')
+			if bDone == 1 {
+				had := false
+				for j, x := range db {
+					if x == v {
+						db = append(append([]int{}, db[:j]...), db[j+1:]...)
+						had = true
+						break
+					}
+				}
+				verify(ok == had, "B: retract succeeded/failed wrongly")
+			} else {
+				verify(!ok, "B: a second answer")
+			}
+		case "assertz(p(4)).":
+			if bDone == 1 {
+				db = append(append([]int{}, db...), 4)
+				verify(ok, "B: assertz failed")
+			}
+		case "asserta(p(0)).":
+			if bDone == 1 {
+				db = append([]int{0}, db...)
+				verify(ok, "B: asserta failed")
+			}
+		case "retract(p(1)), assertz(p(1)).":
+			if bDone == 1 {
+				db = []int{2, 3, 1}
+				verify(ok, "B: retract+assertz failed")
+			}
+		case "retract(p(_)).":
+			// B's own snapshot is the database at ITS first Next; it removes the snapshot's clauses one per Next
+			if bDone <= 3 {
+				verify(ok, "B: retract(p(_)) ran out of clauses early")
+				db = append([]int{}, db[1:]...)
+			}
+		}
+		verify(b.Err() == nil, "B: ended with an error")
+	}
+	verify(a.Close() == nil && b.Close() == nil, "Close returned an error")
+	reach("c12/db", true)
 }
